@@ -100,3 +100,16 @@ package os
 //@   ensures "absolute" implies(err == nil, ret("path/filepath.IsAbs", 0, osPath))
 //@   ensures "valid" implies(err == nil, VP(r))
 //@   nopanic
+
+//@ func (fs *FS) wrapRelPathErr(err error) (r error)
+//@   props C09 C05
+//@   requires fs != nil
+//@   use vpBasic(fs.root)
+//@   ensures "nil" iff(r == nil, err == nil)
+//@   ensures "other" implies(!isPathError(err) && !isType(err, *stdos.LinkError), r == err)
+//@   ensures "path" forall(n, string, implies(vpBasic(n) && vpSplit(fs.root, n) && isPathError(err) && VP(n) && pathOf(err) == osPathOf(fs, "linux", '/', n),
+//@                    isPathError(r) && pathOf(r) == n && opOf(r) == opOf(err) && innerErr(r) == innerErr(err)))
+//@   ensures "link" forall(o, string, forall(n, string, implies(vpBasic(n) && vpSplit(fs.root, n) && vpBasic(o) && vpSplit(fs.root, o) && isType(err, *stdos.LinkError) && VP(o) && VP(n) &&
+//@                    err.(*stdos.LinkError).Old == osPathOf(fs, "linux", '/', o) && err.(*stdos.LinkError).New == osPathOf(fs, "linux", '/', n),
+//@                    isLinkError(r) && oldOf(r) == o && newOf(r) == n && innerErr(r) == err.(*stdos.LinkError).Err)))
+//@   nopanic
